@@ -232,6 +232,20 @@ Section Engine.
   Qed.
 End Engine.
 
+(* ---------- find_sketch_candidates is an observation of the logical state ---------- *)
+Theorem sketch_candidates_noninterference :
+  forall (query : Type) (score : N -> query -> N -> option N) (o1 o2 : oracle) (h : list dop), explicit h = true ->
+    forall q thr max,
+      sketch_candidates query score (fst (drun o1 dstate0 h)) q thr max =
+      sketch_candidates query score (fst (drun o2 dstate0 h)) q thr max.
+Proof.
+  intros query score o1 o2 h E q thr max.
+  destruct (logical_noninterference o1 o2 h E) as [HL _]. unfold logical in HL.
+  destruct (fst (drun o1 dstate0 h)) as [l1 p1]. destruct (fst (drun o2 dstate0 h)) as [l2 p2].
+  cbn [fst] in HL. subst l2.
+  unfold sketch_candidates, sketch_entries, tag_of, r_sketch, frames_of, attrs_of. cbn [fst]. reflexivity.
+Qed.
+
 (* ---------- witnesses ---------- *)
 Definition put1 : dop := DStore (OPut None 1000 0 0 None) (Some 1700000000) true None false.
 Definition put2 : dop := DStore (OPut (Some 1) 2000 0 0 None) (Some 1700000100) true (Some 5) false.
@@ -251,6 +265,21 @@ Definition oC : oracle := mkO (fun k => 100 + N.of_nat k) (fun _ => 0) (fun k =>
 
 Definition differing (H : list N -> N) (h : list dop) (o1 o2 : oracle) : list N :=
   map rclass_code (filter (fun c => negb (list_eqb N.eqb (region H c (fst (drun o1 dstate0 h))) (region H c (fst (drun o2 dstate0 h))))) all_classes).
+
+(* three frames with the same index text (same content tag), committed: every score ties *)
+Definition tied_put (ts : N) : dop := DStore (OPut None 600000 0 0 None) (Some ts) true None false.
+Definition h_tied : list dop := [tied_put 1700000000; tied_put 1700000100; tied_put 1700000200; commit1].
+Definition all_tie (tag : N) (q : unit) (thr : N) : option N := Some 5.
+Definition oH (k : N) : oracle := mkO (fun _ => 1) (fun _ => 0) (fun _ => 5) (fun _ => k) (fun _ => 0).
+
+(* the code's scan (frame order) gives one answer whatever the oracle; a scan in hash-map order would let
+   HashOrd flow into the answer: its order, and once max_candidates cuts through the tie, its set *)
+Lemma hashed_scan_would_flow :
+  sketch_candidates unit all_tie (fst (drun (oH 0) dstate0 h_tied)) tt 10 2 = [(0, 5); (1, 5)] /\
+  sketch_candidates unit all_tie (fst (drun (oH 1) dstate0 h_tied)) tt 10 2 = [(0, 5); (1, 5)] /\
+  sketch_candidates_hashed unit all_tie (oH 0) 0 (fst (drun (oH 0) dstate0 h_tied)) tt 10 2 = [(0, 5); (1, 5)] /\
+  sketch_candidates_hashed unit all_tie (oH 1) 0 (fst (drun (oH 1) dstate0 h_tied)) tt 10 2 = [(1, 5); (2, 5)].
+Proof. vm_compute. repeat split. Qed.
 
 (* byte identity fails: two oracle streams give different TOC images (for every hash function) *)
 Lemma bytes_refuted : exists h o1 o2, explicit h = true /\
